@@ -32,7 +32,18 @@ def server_send(ev, args, kwargs, node):
     st.oblige("%s/fwd.legal_step" % c.id, legal,
               note="forwarded events: accept|close first, send only between accept and close, nothing after close",
               line=getattr(node, "lineno", 0))
-    ws.fields["fwd"] = VInt(z3.If(t == S_("websocket.close"), 3, z3.If(t == S_("websocket.accept"), 2, fwd)))
+    nf = z3.If(t == S_("websocket.close"), 3, z3.If(t == S_("websocket.accept"), 2, fwd))
+    # the wrapper has ALREADY recorded the step when it hands the event to the server: the server's send is a suspension
+    # point and may fail - a second task, or the code after a failed close, must see the state the event implies
+    try:
+        me = st.obj(ev.frame.lookup("self"))
+        if "application_state" in me.fields:
+            st.oblige("%s/fwd.state_recorded_before_forwarding" % c.id, me.fields["application_state"].t == nf,
+                      note="application_state is set before the event is handed to the server's send (accept -> CONNECTED, close -> DISCONNECTED)",
+                      line=getattr(node, "lineno", 0))
+    except Exception:  # noqa  (called from a frame without `self`: nothing to say)
+        pass
+    ws.fields["fwd"] = VInt(nf)
     ws.fields["n_fwd"] = VInt(ws.fields["n_fwd"].t + 1)
     return NONE
 
